@@ -289,8 +289,16 @@ def inline_temps(fn, only=None):
                             break
             if bad:
                 continue
+            # a copy-initialisation `const T t = e;` with e of type T: the temporary stands for e itself
+            src = init
+            while src.k in ('CXXConstructExpr', 'MaterializeTemporaryExpr', 'CXXBindTemporaryExpr', 'ImplicitCastExpr', 'CXXFunctionalCastExpr') and len([x for x in src.c if x is not None]) == 1 \
+                    and (src.k != 'ImplicitCastExpr' or src.cast in ('NoOp', 'LValueToRValue', 'ConstructorConversion')):
+                inner = [x for x in src.c if x is not None][0]
+                if _tkey(inner.t).replace('gdstk::', '') != _tkey(src.t).replace('gdstk::', '') and src.k != 'ImplicitCastExpr':
+                    break
+                src = inner
             for u in uses:
-                cl = clone_node(init, fn)
+                cl = clone_node(src, fn)
                 p_ = u.parent
                 # the use is usually wrapped in an lvalue-to-rvalue load: replace that wrapper
                 if p_ is not None and p_.k == 'ImplicitCastExpr' and p_.cast == 'LValueToRValue' and p_.parent is not None:
@@ -529,12 +537,24 @@ def align(fn):
     if [_tkey(b[1]) for b in base] == [_tkey(v.t) for v in cur]:
         out = list(zip(base, cur))       # same declaration sequence: only names can differ
     else:
-        a = [_akey(b[1], b[2] if len(b) > 2 else '-') for b in base]
-        b = [_akey(v.t, init_shape(v)) for v in cur]
-        sm = difflib.SequenceMatcher(None, a, b, autojunk=False)
-        for blk in sm.get_matching_blocks():
-            for i in range(blk.size):
-                out.append((base[blk.a + i], cur[blk.b + i]))
+        # first the locals that kept their name and type (in order), then the gaps between them by type and initialiser shape
+        an = [b[0] + '|' + _tkey(b[1]) for b in base]
+        bn = [v.n + '|' + _tkey(v.t) for v in cur]
+        sm = difflib.SequenceMatcher(None, an, bn, autojunk=False)
+        anchors = [(blk.a + i, blk.b + i) for blk in sm.get_matching_blocks() for i in range(blk.size)]
+        for ia, ib in anchors:
+            out.append((base[ia], cur[ib]))
+        pa, pb = 0, 0
+        for ia, ib in anchors + [(len(base), len(cur))]:
+            ga, gb = list(range(pa, ia)), list(range(pb, ib))
+            if ga and gb:
+                a = [_akey(base[i][1], base[i][2] if len(base[i]) > 2 else '-') for i in ga]
+                b = [_akey(cur[i].t, init_shape(cur[i])) for i in gb]
+                sm2 = difflib.SequenceMatcher(None, a, b, autojunk=False)
+                for blk in sm2.get_matching_blocks():
+                    for i in range(blk.size):
+                        out.append((base[ga[blk.a + i]], cur[gb[blk.b + i]]))
+            pa, pb = ia + 1, ib + 1
     return out, cur
 
 
